@@ -195,3 +195,203 @@ vprobes! { (a, b, i, j)
     v_max_by => { let w: Vec<&str> = a.split(' ').collect(); vec![w.iter().map(|s| s.len()).max().unwrap_or(0), w.iter().max_by_key(|s| s.len()).map(|s| s.len()).unwrap_or(0), w.iter().min_by_key(|s| s.len()).map(|s| s.len()).unwrap_or(0), w.iter().map(|s| s.len()).sum()] };
     v_shifts => vec![i << 2, i >> 1, i & j, i | j, i ^ j, !i & 0xff, (i as u8 as char) as usize, (i as u32).leading_zeros() as usize, i.count_ones() as usize, i.trailing_zeros().min(64) as usize, (i as i32 - j as i32).rem_euclid(7) as usize, ((i as i32 - j as i32) / 2 + 10) as usize, ((i as i32 - j as i32) % 3 + 10) as usize];
 }
+
+// ---------------------------------------------------------------------------------------------------------------------------
+// second batch: language features (patterns, control flow, closures, traits, user types) and more library surface
+pub mod more {
+    use std::collections::{BTreeMap, BTreeSet, HashMap, VecDeque};
+    use std::fmt::Write as _;
+    use std::ops::Range;
+    use std::rc::Rc;
+
+    fn o(x: Option<usize>) -> Vec<usize> {
+        match x {
+            Some(v) => vec![1, v],
+            None => vec![0],
+        }
+    }
+
+    #[derive(Debug, Clone, Copy, PartialEq, Eq, PartialOrd, Ord)]
+    pub enum Kind {
+        Blank,
+        Word,
+        Other(u8),
+    }
+
+    #[derive(Debug, Clone, PartialEq)]
+    pub struct Span {
+        pub range: Range<usize>,
+        pub kind: Kind,
+    }
+
+    pub trait Classify {
+        fn classify(&self, c: char) -> Kind;
+    }
+    pub struct Ascii;
+    pub struct Wide {
+        extra: char,
+    }
+    impl Classify for Ascii {
+        fn classify(&self, c: char) -> Kind {
+            if c == ' ' || c == '\t' {
+                Kind::Blank
+            } else if c.is_ascii_alphanumeric() {
+                Kind::Word
+            } else {
+                Kind::Other((c as u32 & 0xff) as u8)
+            }
+        }
+    }
+    impl Classify for Wide {
+        fn classify(&self, c: char) -> Kind {
+            if c.is_whitespace() || c == self.extra {
+                Kind::Blank
+            } else {
+                Kind::Word
+            }
+        }
+    }
+
+    pub struct Runs<'a> {
+        s: &'a str,
+        pos: usize,
+    }
+    impl<'a> Iterator for Runs<'a> {
+        type Item = (usize, usize);
+        fn next(&mut self) -> Option<(usize, usize)> {
+            let rest = &self.s[self.pos..];
+            let first = rest.chars().next()?;
+            let blank = first == ' ';
+            let len: usize = rest.chars().take_while(|c| (*c == ' ') == blank).map(|c| c.len_utf8()).sum();
+            let start = self.pos;
+            self.pos += len;
+            Some((start, self.pos))
+        }
+    }
+
+    fn spans(a: &str, cl: &dyn Classify) -> Vec<Span> {
+        let mut out: Vec<Span> = vec![];
+        for (p, c) in a.char_indices() {
+            let k = cl.classify(c);
+            match out.last_mut() {
+                Some(last) if last.kind == k => last.range.end = p + c.len_utf8(),
+                _ => out.push(Span { range: p..p + c.len_utf8(), kind: k }),
+            }
+        }
+        out
+    }
+
+    fn first_two(v: &[usize]) -> usize {
+        match v {
+            [] => 0,
+            [x] => *x,
+            [x, y] => x * 10 + y,
+            [x, .., z] => x * 100 + z,
+        }
+    }
+
+    fn tail_sum(v: &[usize]) -> usize {
+        match v {
+            [_, rest @ ..] => rest.iter().sum(),
+            [] => 0,
+        }
+    }
+
+    fn parse_kv(s: &str) -> Option<(&str, usize)> {
+        let (k, v) = s.split_once('=')?;
+        let n = v.trim().parse::<usize>().ok()?;
+        Some((k.trim(), n))
+    }
+
+    fn let_else(s: &str) -> usize {
+        let Some(p) = s.find(' ') else {
+            return 999;
+        };
+        p
+    }
+
+    const TABLE: [usize; 5] = [2, 3, 5, 7, 11];
+    static NAMES: &[&str] = &["zero", "one", "two"];
+
+    macro_rules! sp {
+        (($a:ident, $b:ident, $i:ident, $j:ident) $($name:ident => $body:expr;)*) => {
+            $(pub fn $name($a: &str, $b: &str, $i: usize, $j: usize) -> String { $body })*
+            pub fn call_s(n: &str, a: &str, b: &str, i: usize, j: usize) -> Option<String> {
+                match n { $(stringify!($name) => Some($name(a, b, i, j)),)* _ => None }
+            }
+            pub const S_NAMES: &[&str] = &[$(stringify!($name)),*];
+        };
+    }
+    macro_rules! vp {
+        (($a:ident, $b:ident, $i:ident, $j:ident) $($name:ident => $body:expr;)*) => {
+            $(pub fn $name($a: &str, $b: &str, $i: usize, $j: usize) -> Vec<usize> { $body })*
+            pub fn call_v(n: &str, a: &str, b: &str, i: usize, j: usize) -> Option<Vec<usize>> {
+                match n { $(stringify!($name) => Some($name(a, b, i, j)),)* _ => None }
+            }
+            pub const V_NAMES: &[&str] = &[$(stringify!($name)),*];
+        };
+    }
+
+    sp! { (a, b, i, j)
+        ms_write_macro => { let mut s = String::new(); write!(s, "{}-{}", a, i).unwrap(); writeln!(s, "|{:>3}", j).unwrap(); s };
+        ms_inline_args => format!("{a}:{i:>3}:{b}");
+        ms_string_add => { let s = a.to_string() + b; s + "!" };
+        ms_add_assign => { let mut s = String::from(a); s += b; s += "."; s };
+        ms_match_str => match b { "a" => "letter".to_string(), " " | "\n" => "blank".to_string(), "" => "empty".to_string(), other => other.to_uppercase() };
+        ms_match_char_ranges => a.chars().map(|c| match c { 'a'..='z' => 'l', 'A'..='Z' => 'U', '0'..='9' => 'd', ' ' | '\t' | '\n' => '_', _ if !c.is_ascii() => 'w', _ => '?' }).collect();
+        ms_char_from => [i, j, 65, 0x3042].iter().filter_map(|x| char::from_u32(*x as u32)).collect();
+        ms_char_from_u8 => a.bytes().filter(|x| x.is_ascii_graphic()).map(char::from).collect();
+        ms_to_lower_char => a.chars().flat_map(|c| c.to_lowercase()).filter(|c| c.is_ascii()).collect();
+        ms_rc_string => { let r = Rc::new(a.to_string()); let r2 = Rc::clone(&r); format!("{}{}", r.as_str().len(), &r2[..0]) };
+        ms_runs_iter => Runs { s: a, pos: 0 }.map(|(x, y)| format!("{}-{}", x, y)).collect::<Vec<_>>().join(",");
+        ms_dyn_spans => { let cl: Box<dyn Classify> = if i % 2 == 0 { Box::new(Ascii) } else { Box::new(Wide { extra: '\u{3000}' }) }; spans(a, cl.as_ref()).iter().map(|s| format!("{}..{}{}", s.range.start, s.range.end, match s.kind { Kind::Blank => 'b', Kind::Word => 'w', Kind::Other(_) => 'o' })).collect::<Vec<_>>().join(" ") };
+        ms_names => NAMES.get(i).copied().unwrap_or("many").to_string();
+        ms_btreemap => { let mut m = BTreeMap::new(); for w in a.split(' ') { *m.entry(w).or_insert(0usize) += 1; } m.iter().map(|(k, v)| format!("{}={}", k, v)).collect::<Vec<_>>().join(",") };
+        ms_btreeset => { let s: BTreeSet<char> = a.chars().collect(); s.into_iter().collect() };
+        ms_labeled_break => { let mut out = String::new(); 'outer: for l in a.lines() { for c in l.chars() { if c == '=' { break 'outer; } if c == ' ' { continue 'outer; } out.push(c); } out.push('/'); } out };
+        ms_loop_value => { let mut it = a.chars(); let found = loop { match it.next() { Some(c) if c.is_whitespace() => continue, Some(c) => break Some(c), None => break None } }; found.map(String::from).unwrap_or_default() };
+        ms_closure_fnmut => { let mut count = 0; let mut bump = |c: char| { if c == ' ' { count += 1; } count }; let v: Vec<usize> = a.chars().map(|c| bump(c)).collect(); format!("{:?}", v.last().copied().unwrap_or(0)) };
+        ms_closure_returning_closure => { let adder = |n: usize| move |x: usize| x + n; let f = adder(i); f(j).to_string() };
+        ms_trim_ascii => a.trim_ascii().to_string();
+        ms_split_ascii_ws => a.split_ascii_whitespace().rev().collect::<Vec<_>>().join("|");
+        ms_char_indices_rev => a.char_indices().rev().take(2).map(|(p, c)| format!("{}{}", p, c)).collect();
+        ms_escape => b.escape_default().to_string();
+        ms_lines_enumerate => a.lines().enumerate().map(|(n, l)| format!("{:>2}|{}", n + 1, l)).collect::<Vec<_>>().join("\n");
+        ms_tab_expand => a.chars().map(|c| if c == '\t' { "    ".to_string() } else { c.to_string() }).collect::<String>();
+        ms_pad => format!("[{:<5}][{:>5}][{:^5}][{:*<4}]", b, b, b, i);
+    }
+
+    vp! { (a, b, i, j)
+        mv_slice_patterns => { let v: Vec<usize> = a.bytes().map(|x| x as usize % 10).collect(); vec![first_two(&v), tail_sum(&v), first_two(&v[..v.len().min(2)]), first_two(&[])] };
+        mv_question_mark => { let r = parse_kv(a); vec![r.is_some() as usize, r.map(|x| x.1).unwrap_or(0), r.map(|x| x.0.len()).unwrap_or(0)] };
+        mv_let_else => vec![let_else(a), let_else(b)];
+        mv_if_let_chain => { let mut n = 0; if let Some(p) = a.find(' ') { if let Some(q) = a[p + 1..].find(' ') { n = p + q; } else { n = 1000 + p; } } vec![n] };
+        mv_while_let_pop => { let mut st: Vec<usize> = a.bytes().map(|x| x as usize).collect(); let mut out = vec![]; while let Some(x) = st.pop() { if x == 32 { break; } out.push(x); } out };
+        mv_table => vec![TABLE[i % 5], TABLE.iter().sum::<usize>(), TABLE.len(), TABLE.iter().position(|x| *x == j).unwrap_or(99)];
+        mv_array_init => { let mut t = [0usize; 4]; for (k, x) in a.bytes().enumerate() { t[k % 4] += x as usize; } t.to_vec() };
+        mv_2d_vec => { let mut g = vec![vec![0usize; 3]; 2]; g[i % 2][j % 3] = 7; g[1][0] += 1; g.concat() };
+        mv_enum_ord => { let cl = Ascii; let mut k: Vec<Kind> = a.chars().map(|c| cl.classify(c)).collect(); k.sort(); k.dedup(); k.iter().map(|x| match x { Kind::Blank => 0, Kind::Word => 1, Kind::Other(v) => 100 + *v as usize }).collect() };
+        mv_struct_eq => { let s1 = spans(a, &Ascii); let s2 = spans(b, &Ascii); vec![(s1 == s2) as usize, s1.len(), s1.first().map(|s| s.range.len()).unwrap_or(0), (s1.first() == s2.first()) as usize] };
+        mv_range_ops => { let r = i..j; let q = 2..6usize; vec![r.len(), r.clone().rev().next().unwrap_or(99), r.clone().step_by(2).count(), (r.start < q.end && q.start < r.end) as usize, r.start.max(q.start), r.end.min(q.end), r.clone().filter(|x| x % 2 == 1).sum::<usize>(), (i..=j).count(), q.contains(&i) as usize] };
+        mv_range_vec => { let mut v: Vec<Range<usize>> = vec![i..j, 0..2, 4..9, 2..3]; v.retain(|r| !r.is_empty()); v.sort_by_key(|r| (r.start, r.end)); let mut m: Vec<Range<usize>> = vec![]; for r in v { match m.last_mut() { Some(l) if l.end >= r.start => l.end = l.end.max(r.end), _ => m.push(r) } } m.iter().flat_map(|r| [r.start, r.end]).collect() };
+        mv_vecdeque => { let mut q: VecDeque<usize> = VecDeque::new(); q.push_back(i); q.push_back(j); q.push_front(9); let f = q.pop_front(); let l = q.len(); vec![f.unwrap_or(0), l, q.front().copied().unwrap_or(0), q.back().copied().unwrap_or(0), q.iter().sum()] };
+        mv_hashmap_get_or => { let mut m: HashMap<&str, Vec<usize>> = HashMap::new(); for (k, w) in a.split(' ').enumerate() { m.entry(w).or_default().push(k); } let mut r = m.get(b).cloned().unwrap_or_default(); r.push(m.len()); r };
+        mv_partition_unzip => { let (ev, od): (Vec<usize>, Vec<usize>) = a.bytes().map(|x| x as usize).partition(|x| x % 2 == 0); let (p, q): (Vec<usize>, Vec<usize>) = a.bytes().enumerate().map(|(k, x)| (k, x as usize)).unzip(); vec![ev.len(), od.len(), p.len(), q.iter().sum()] };
+        mv_flatten => { let v = vec![Some(i), None, Some(j)]; let w: Vec<usize> = v.iter().flatten().copied().collect(); let n: Vec<Vec<usize>> = vec![vec![1], vec![], vec![i, j]]; let f: Vec<usize> = n.into_iter().flatten().collect(); [w, f].concat() };
+        mv_min_max_by => { let v: Vec<(usize, usize)> = a.bytes().enumerate().map(|(k, x)| (x as usize, k)).collect(); vec![v.iter().max_by(|p, q| p.0.cmp(&q.0)).map(|p| p.1).unwrap_or(99), v.iter().min_by(|p, q| p.0.cmp(&q.0).then(q.1.cmp(&p.1))).map(|p| p.1).unwrap_or(99), v.iter().map(|p| p.0).max().unwrap_or(0)] };
+        mv_is_sorted => { let v: Vec<usize> = a.bytes().map(|x| x as usize).collect(); vec![v.windows(2).all(|w| w[0] <= w[1]) as usize, v.iter().rev().skip_while(|x| **x == 32).count(), v.iter().copied().product::<usize>() & 0xffff] };
+        mv_cycle_last => vec![a.bytes().cycle().take(i + j).last().unwrap_or(0) as usize, a.bytes().rev().nth(i).unwrap_or(0) as usize, a.chars().nth_back(j).map(|c| c as usize).unwrap_or(0)];
+        mv_splice_drain => { let mut v: Vec<usize> = (0..8).collect(); let d: Vec<usize> = v.drain(i.min(8)..(i + 2).min(8)).collect(); v.splice(0..1, [7, 7]); v.extend(d); v.dedup_by_key(|x| *x / 2); v };
+        mv_retain_mut_swap_remove => { let mut v: Vec<usize> = a.bytes().map(|x| x as usize).collect(); if !v.is_empty() { v.swap_remove(0); } v.retain_mut(|x| { *x += 1; *x % 3 != 0 }); v.resize(4, 1); v.rotate_left(1); v };
+        mv_chunks_exact_rchunks => { let v: Vec<usize> = a.bytes().map(|x| x as usize).collect(); let mut out: Vec<usize> = v.chunks_exact(2).map(|c| c[0] + c[1]).collect(); out.extend(v.rchunks(3).map(|c| c.len())); out.extend(v.split(|x| *x == 32).map(|s| s.len())); out };
+        mv_int_casts => vec![(i as u8).wrapping_add(250) as usize, (i as i8 - 5) as u8 as usize, (-(j as i32)) as u32 as usize & 0xffff, (i as u16).rotate_left(3) as usize, u8::try_from(i * 40).map(|x| x as usize).unwrap_or(999), usize::try_from(i as i64 - 3).unwrap_or(888), (i as f64 / 2.0) as usize, u32::from(i as u8) as usize, (b.len() as isize - 3).unsigned_abs(), i.next_power_of_two(), i.isqrt(), (j as u32).checked_ilog2().unwrap_or(77) as usize];
+        mv_char_props => a.chars().map(|c| (c.is_ascii_graphic() as usize) | ((c.is_ascii_hexdigit() as usize) << 1) | ((c.eq_ignore_ascii_case(&'A') as usize) << 2) | ((c.is_ascii_lowercase() as usize) << 3) | ((c.len_utf16()) << 4)).collect();
+        mv_bytes_rposition_windows => vec![a.as_bytes().iter().rposition(|x| *x == b'\n').unwrap_or(99), a.as_bytes().windows(2).position(|w| w == b"\r\n").unwrap_or(99), a.as_bytes().iter().filter(|x| !x.is_ascii()).count(), a.bytes().rev().position(|x| x != b' ').unwrap_or(99), a.as_bytes().split(|x| *x == b'\n').count()];
+        mv_str_cmp_ops => vec![a.cmp(b) as i8 as isize as usize & 3, a.partial_cmp(b).map(|o| o as i8 + 1).unwrap_or(9) as usize, (a.to_string() > b.to_string()) as usize, a.chars().cmp(b.chars()) as i8 as isize as usize & 3, a.chars().eq(b.chars()) as usize, a.bytes().lt(b.bytes()) as usize];
+        mv_option_more => { let x = a.find(b); let mut y = x; let t = y.take(); let z = y.get_or_insert(5); *z += 1; let mut w = Some(i); if let Some(v) = w.as_mut() { *v += 1; } vec![t.unwrap_or(99), y.unwrap_or(98), w.unwrap_or(97), x.map(|v| v * 2).into_iter().chain(Some(j)).sum::<usize>(), x.and(Some(3)).unwrap_or(96), x.is_none_or(|v| v > 2) as usize, w.replace(4).unwrap_or(95), w.unwrap_or(94)] };
+        mv_nested_closure_capture => { let words: Vec<&str> = a.split(' ').collect(); let longest = words.iter().map(|w| w.len()).max().unwrap_or(0); let pick = |min: usize| words.iter().filter(|w| w.len() >= min).count(); vec![longest, pick(1), pick(longest), pick(longest + 1)] };
+        mv_tuple_struct_update => { #[derive(Clone, Default)] struct Cfg { a: usize, b: usize, c: bool } let base = Cfg { a: i, ..Default::default() }; let d = Cfg { b: j, c: true, ..base.clone() }; vec![base.a, base.b, base.c as usize, d.a, d.b, d.c as usize] };
+        mv_early_return_loop => o((|| { for (k, c) in a.chars().enumerate() { if c == ' ' { return Some(k); } if k > j { return None; } } None })());
+        mv_rc_refcell => { use std::cell::RefCell; let c = Rc::new(RefCell::new(vec![i])); let c2 = Rc::clone(&c); c2.borrow_mut().push(j); let n = c.borrow().len(); let cell = std::cell::Cell::new(i); cell.set(cell.get() + 1); let second = c.borrow()[1]; let sc = Rc::strong_count(&c); vec![n, second, cell.get(), sc] };
+    }
+}
